@@ -15,10 +15,10 @@ type Tok struct {
 	L    []Tok
 }
 
-func I(v int64) Tok       { return Tok{Kind: 'i', I: big.NewInt(v)} }
-func U(v uint64) Tok      { return Tok{Kind: 'i', I: new(big.Int).SetUint64(v)} }
-func B(b []byte) Tok      { return Tok{Kind: 'b', B: b} }
-func L(items ...Tok) Tok  { return Tok{Kind: 'l', L: items} }
+func I(v int64) Tok      { return Tok{Kind: 'i', I: big.NewInt(v)} }
+func U(v uint64) Tok     { return Tok{Kind: 'i', I: new(big.Int).SetUint64(v)} }
+func B(b []byte) Tok     { return Tok{Kind: 'b', B: b} }
+func L(items ...Tok) Tok { return Tok{Kind: 'l', L: items} }
 func Bool(b bool) Tok {
 	if b {
 		return I(1)
